@@ -23,6 +23,14 @@ SRC = [
        params={"pts": "int"}, prop="C15", theorem="src_ts_to_pts_int"),
   dict(file="AcraNetwork/MPEG/PES.py", lean="PES", func="checksum_stanag",
        prop="C07", theorem="src_checksum_stanag"),
+  dict(file="AcraNetwork/IRIG106/Chapter11/__init__.py", lean="Chapter11", func="PTPTime.__sub__",
+       params={"self": _PTP, "val": _PTP}, prop="C15", theorem="src_PTPTime_sub"),
+  dict(file="AcraNetwork/IRIG106/Chapter11/__init__.py", lean="Chapter11", func="PTPTime.__lt__",
+       params={"self": _PTP, "val": _PTP}, prop="C15", theorem="src_PTPTime_lt"),
+  dict(file="AcraNetwork/IRIG106/Chapter11/__init__.py", lean="Chapter11", func="PTPTime.__le__",
+       params={"self": _PTP, "val": _PTP}, prop="C15", theorem="src_PTPTime_le"),
+  dict(file="AcraNetwork/IRIG106/Chapter11/__init__.py", lean="Chapter11", func="PTPTime.__eq__",
+       params={"self": _PTP, "__value": _PTP}, prop="C15", theorem="src_PTPTime_eq"),
   dict(file="AcraNetwork/IRIG106/Chapter11/__init__.py", lean="Chapter11", func="get_checksum_buf",
        prop="C07", theorem="src_get_checksum_buf"),
   dict(file="AcraNetwork/IRIG106/Chapter11/__init__.py", lean="Chapter11", func="get_checksum_byte_buf",
